@@ -148,7 +148,7 @@ CLAIMED = {
         "its window returned unmodified at its arrival time after k full timeouts, Timeout iff retries unanswered attempts in a row "
         "and then after exactly retries x timeout, opened = closed endpoints; tied by running the real send_udp on a virtual-time "
         "loop with a recording endpoint factory, exhaustively over all outcome sequences up to the retry budget, plus loopback "
-        "sockets with /proc/self/fd counts",
+        "sockets (IPv4 and IPv6, loggers quiet and at DEBUG, a call abandoned by its caller) with /proc/self/fd counts",
         "partial: kernel socket behaviour, ICMP timing, garbage collection and equal-deadline timer order are outside the model",
     ),
     "C14": (
@@ -163,7 +163,8 @@ CLAIMED = {
     "C15": (
         "proof: for every raw result every wrapper method returns built-in types only (PyVal universe with an explicit leak "
         "constructor, dictionary keys included) and equals the element-wise pythonisation (tables: same items, index key moved "
-        "last); tied by deep type inspection of all 11 PyWrapper methods vs the raw client against agents holding every value kind",
+        "last); tied by deep type inspection of all 11 PyWrapper methods vs the raw client against agents holding every value kind, "
+        "and lenient / strict walks through both layers against devices that get stuck",
         "TimeTicks.pythonize goes through float division, modelled as exact (see C17)",
     ),
     "C16": (
@@ -234,7 +235,7 @@ CLAIMED = {
         "its window returned unmodified at its arrival time after k full timeouts, Timeout iff retries unanswered attempts in a row "
         "and then after exactly retries x timeout, opened = closed endpoints; tied by running the real send_udp on a virtual-time "
         "loop with a recording endpoint factory, exhaustively over all outcome sequences up to the retry budget, plus loopback "
-        "sockets with /proc/self/fd counts",
+        "sockets (IPv4 and IPv6, loggers quiet and at DEBUG, a call abandoned by its caller) with /proc/self/fd counts",
         "partial: kernel socket behaviour, ICMP timing, garbage collection and equal-deadline timer order are outside the model",
     ),
     "C14": (
@@ -249,7 +250,8 @@ CLAIMED = {
     "C15": (
         "proof: for every raw result every wrapper method returns built-in types only (PyVal universe with an explicit leak "
         "constructor, dictionary keys included) and equals the element-wise pythonisation (tables: same items, index key moved "
-        "last); tied by deep type inspection of all 11 PyWrapper methods vs the raw client against agents holding every value kind",
+        "last); tied by deep type inspection of all 11 PyWrapper methods vs the raw client against agents holding every value kind, "
+        "and lenient / strict walks through both layers against devices that get stuck",
         "TimeTicks.pythonize goes through float division, modelled as exact (see C17)",
     ),
     "C16": (
@@ -273,9 +275,12 @@ CLAIMED = {
         "proof: listener = filterMap of a stateless per-datagram decision: matching v2c notification delivered exactly once with "
         "source and exactly its bindings, foreign community / unknown version / malformed never delivered, compositional over "
         "sequences (a bad datagram never affects later ones), deliveries = matching datagrams in order, pythonic TrapInfo view; "
-        "tied by datagram sequences injected through the real receiver protocol with the decoder installed by "
-        "register_trap_callback, plus a loopback listener",
-        "well-formedness of a datagram is decided by the independent BER reader (byte-level decoding is C06/C20's subject); "
+        "from the octets on (C19_from_wire): register_trap_callback's decoder over the x690 mirror delivers, for every notification "
+        "an agent writes in any length forms, exactly one Trap with the sender's address and the bindings sent, and drops foreign "
+        "communities (C19_from_wire_foreign); tied by datagram sequences injected through the real receiver protocol with the "
+        "decoder installed by register_trap_callback (the model is given the independent reader's parse and, separately, nothing "
+        "but the datagrams), malformed content inside intact wrappers, plus a loopback listener",
+        "the parsed-datagram model takes well-formedness from the independent BER reader; the wire model decodes eagerly where x690 is lazy (equivalent here: everything is looked at before the callback runs); "
         "informs are delivered without acknowledgement (outside the property)",
     ),
     "C20": (
@@ -288,7 +293,8 @@ CLAIMED = {
         "the classes OCTET STRING / INTEGER (C20_disco_params_typed over the generated class check; unit correspondence of "
         "USMSecurityParameters.decode on every identifier octet). Tied by a mutation sweep (bit flips, truncations, header substitutions incl. application / PDU tags, random, "
         "nested) delivered to real clients / discovery / trap decoder under a time guard with a follow-up request; every real "
-        "hang must be predicted by the model",
+        "hang must be predicted by the model; suite retention bounds what stays allocated after hundreds of distinct datagrams "
+        "(trap listener, forged v3 responses)",
         "partial: CPU time, big-integer cost and memory are runtime facts bounded only through iteration counts; two open known "
         "findings in the external x690 package",
     ),
